@@ -21,6 +21,10 @@ CLAIMED = {
  "C46": dict(text="rlp.ReadSize and rlp.DecodeString are proved, for every input byte string and start index >= 0, to succeed exactly on the canonical encodings defined by spec functions written from the RLP definition and to return the payload slice and consumed length; rlp.DecodeList is proved free of run-time panics (loop invariant) with its consumed length equal to header plus payload; the Cadence wrappers are proved to fail only with their user error type or a metering error. Every index, slice and make site is a discharged safety obligation. Two genuine crashes were found, replayed and repaired.",
              note="Bit-vector encoding (exact machine arithmetic). Trusted: atree-backed conversions ByteArrayValueToByteSlice/ByteSliceToByteArrayValue/NewArrayValueWithIterator (assumed, the iterator closure is not executed), err.Error(). DecodeList's postcondition does not describe the item contents (slices of slices are tracked by identity only) nor that err==nil iff the payload is a sequence of canonical items (needs a recursive predicate; not expressed).",
              technique="deductive: contracts + loop invariant + VC generator over go/ssa (bit-vector encoding), SMT, small-counterexample search + replay", ref="6 (C46)"),
+ "C15": dict(text="PARTIAL: Fix64 and UFix64 (+,-,*,/,%, negate) are proved on the raw scaled integers for all operands: the result is the exact rational result truncated toward zero at scale 8, failure exactly when it is out of range (division by zero fails); % is proved to be a - trunc(a/b)*b failing only when the quotient is out of range, through the Div/Mul/Minus contracts. Fix128/UFix128 arithmetic and multiplyDivide (onflow/fixed-point library calls and their error mapping) are not yet under contract.",
+             note="Same trusted base as C11 (math/big Mul Quo Cmp SetInt64/SetUint64 IsUint64 Int64/Uint64 assumed). The 128-bit types delegate to github.com/onflow/fixed-point, which is outside the repository.", technique="deductive: contracts + VC generator over go/ssa, SMT", ref="6 (C15)"),
+ "C16": dict(text="All 22 integer conversion entry points (ConvertInt8..ConvertInt256, ConvertUInt8..ConvertUInt256, ConvertWord8..ConvertWord256, ConvertInt, ConvertUInt, incl. the generic ConvertUnsigned/ConvertWord bodies) are proved against interface contracts of the source value (NumberValue.ToInt, BigNumberValue.ToBigInt): result == integer part of the source (fraction truncated toward zero) when representable, else Overflow/Underflow; Word targets: integer part mod 2^n, never failing. The same interface contracts are instantiated on and proved for every implementor found in the loaded program (24 ToInt, 10 ToBigInt, plus Fix128/UFix128 <-> big.Int helpers), so the result holds for every (source, target) pair. One genuine defect found, replayed and repaired (Fix128.ToInt used Euclidean division). Conversions to fixed-point targets and the rounding-argument variants are not yet under contract.",
+             note="Same trusted base as C11. Precondition on generic code: every numeric kind that is not a BigNumberValue has an integer part within int64 (shown per kind by the dead failure clause of its ToInt). Constructor-call plumbing (NativeConverterFunction...) is outside the contracts.", technique="deductive: interface contracts instantiated on every implementor + VC generator over go/ssa, SMT", ref="6 (C16)"),
  "C32": dict(text="For Int/UInt and the 128/256-bit integer types, +,-,*,/,%,negate are proved to meter (ghost sum of the amounts accepted by the memory gauge) at least 8 bytes per word of the result, for all operands, on top of per-estimator contracts (estimate >= size of the operation's result). All eleven estimators of common/metering.go are under contract. Three estimator obligations fail on the pinned tree, are confirmed by replay and recorded as known findings (Mod vs Rem result size, right-shift b/8 vs b/64, left-shift int overflow); they change consensus-visible metering, so they are reported, not repaired.",
              note="Over assumed word-length lemmas (L_words_*: |x+y| <= max+1 words, |x*y| <= sum, quotient/remainder bounds, small-magnitude bounds), instantiated explicitly and listed in the contracts; len(x.Bits()) is the uninterpreted words(x); big.Int lengths assumed <= 2^40 words; the quotient estimate is proved only for divisors below 100 words (the recursive-division branch is nonlinear and not decided). Memory gauge assumed to have no effect but accepting/refusing.",
              technique="deductive: contracts with a ghost meter + VC generator over go/ssa, SMT; counterexamples replayed with a recording gauge", ref="6 (C32)"),
